@@ -279,6 +279,12 @@ def run(ctx):
     nan_guard = any(isinstance(n, ast.If) and "np.isnan(wind[0]" in ast.unparse(n.test) for n in own_walk(f.node))
     ctx.expect(ok and nan_guard, "R10.3", "_roughness_estimate[missing stays missing]",
                "a NaN wind speed and any solver exception give NaN for that point", f.loc())
+    # ---- R10.6 scalar wind speeds are admissible inputs: the solver and the Charnock helpers are rank-polymorphic
+    from ..rank import rank_rule
+    rank_rule(ctx, "R10.6", p.get_function(FPI), {"guess"}, "the first guess")
+    rank_rule(ctx, "R10.6", ffu, {"speed"}, "the wind speed")
+    rank_rule(ctx, "R10.6", fch, {fch.params[0]}, "the friction velocity")
+    ctx.require_count("R10.6", 3)
     # ---- R10.5 bracket bookkeeping of the Newton/secant/bisection solver the Janssen estimate runs on
     from ..pairs import paired_update_rule
     fnr = p.get_function(NR)
